@@ -109,7 +109,12 @@ def cache_facts(repo):
     srcs = [ast.unparse(b) for b in body]
     want = "if self.training:\n    self._clear_cache()"
     pos = srcs.index(want) if want in srcs else -1
-    before_ok = pos >= 0 and all(s.startswith("if prior:") for s in srcs[:pos])
+    shortcut = "if prior:\n    return self.model.forward(x, **kwargs)"
+    # the prior shortcut returns BEFORE the memo is touched (a `prior=True` evaluation between `output = model(x)` and
+    # `mll(output, y)` must leave the p(u) cached by the forward pass in place) ...
+    prior_leaves = shortcut in srcs and (pos < 0 or srcs.index(shortcut) < pos) and srcs.index(shortcut) == 0
+    # ... and the clearing statement is the very next one
+    before_ok = pos >= 0 and (pos == 0 or (pos == 1 and srcs[0] == shortcut))
     cc = _methods(base, "_clear_cache")
     base_clear = len(cc) == 1 and [ast.unparse(b) for b in _strip_doc(cc[0].body)] == ["clear_cache_hook(self)"]
     memo = _parse(repo, os.path.join("gpytorch", "utils", "memoize.py"))
@@ -129,7 +134,7 @@ def cache_facts(repo):
             if last != "return super().__call__(x, prior=prior, **kwargs)":
                 raise TranslateError(f"{cname}.__call__ does not end in the base call: {last}")
     return {"callClearsFirst": before_ok, "baseClearIsHook": base_clear, "hookResetsMemo": hook_resets,
-            "noOverride": no_override}
+            "noOverride": no_override, "priorCallLeavesMemo": prior_leaves}
 
 
 def translate(repo):
@@ -179,6 +184,9 @@ def baseClearIsHook : Bool := {b(facts['baseClearIsHook'])}
 def hookResetsMemo : Bool := {b(facts['hookResetsMemo'])}
 /-- neither `VariationalStrategy` nor `UnwhitenedVariationalStrategy` overrides `_clear_cache` -/
 def noOverride : Bool := {b(facts['noOverride'])}
+/-- `strategy(x, prior=True)` returns `self.model.forward(x)` as the FIRST statement of `__call__` — before the memo is
+touched, in every mode -/
+def priorCallLeavesMemo : Bool := {b(facts['priorCallLeavesMemo'])}
 /-- a training-mode call of either strategy starts from an empty memo table -/
 def trainingCallClearsMemo : Bool := callClearsFirst && baseClearIsHook && hookResetsMemo && noOverride
 
